@@ -35,7 +35,8 @@ CONSTANTS Plans,        \* plan ids (1..2)
           Ops,          \* the API operations callers may use
           Aging,        \* TRUE: a submitted plan may grow older than the maximum submit age
           TwoStep,      \* TRUE: the vault keeps its search index in a second container, written in a second step (cosmosdb)
-          RecAging      \* TRUE: a new process may find Running plans whose last activity is older than the maximum (C11)
+          RecAging,     \* TRUE: a new process may find Running plans whose last activity is older than the maximum (C11)
+          MaxFaults     \* how many storage reads may be made to fail (exhaustive configurations)
 
 VARIABLES store,    \* durable status of the plan: "none" | "NS" | "RU" | "CO" | "FA"
           adone,    \* durable result of the plan's action: "no" | "ok" | "fail"
@@ -52,11 +53,12 @@ VARIABLES store,    \* durable status of the plan: "none" | "NS" | "RU" | "CO" |
           okstart,  \* a Start of the plan returned nil in this process lifetime, or recovery resumed it
           inv, redo, fresh, lost,   \* history counters for the invariants
           panicked,
+          faults,   \* per plan: armed read failures - the next read(s) of the plan from storage fail
           ev        \* the event emitted by the last step (NoEv: silent step)
 
-vars == <<store, adone, idx, old, alive, recovery, mu, waiter, gen, closed, runners, call, ncalls, crashes, okstart, inv, redo, fresh, lost, panicked, ev>>
+vars == <<store, adone, idx, old, alive, recovery, mu, waiter, gen, closed, runners, call, ncalls, crashes, okstart, inv, redo, fresh, lost, panicked, faults, ev>>
 \* what the exhaustive configurations distinguish states by (ev is output only)
-view == <<store, adone, idx, old, alive, recovery, mu, waiter, gen, closed, runners, call, ncalls, crashes, okstart, inv, redo, fresh, lost, panicked>>
+view == <<store, adone, idx, old, alive, recovery, mu, waiter, gen, closed, runners, call, ncalls, crashes, okstart, inv, redo, fresh, lost, panicked, faults>>
 
 NoEv == [ev |-> "none"]
 Idle == [op |-> "idle", p |-> 0, pc |-> "-", seen |-> "-", res |-> "-", g |-> 0, ws |-> FALSE, wo |-> FALSE]
@@ -87,7 +89,7 @@ Init ==
   /\ call = [c \in Callers |-> Idle] /\ ncalls = 0 /\ crashes = 0
   /\ okstart = [p \in Plans |-> FALSE]
   /\ inv = [p \in Plans |-> 0] /\ redo = [p \in Plans |-> 0] /\ fresh = [p \in Plans |-> 0] /\ lost = [p \in Plans |-> 0]
-  /\ panicked = FALSE /\ ev = NoEv
+  /\ panicked = FALSE /\ faults = [p \in Plans |-> 0] /\ ev = NoEv
 
 Hist == <<inv, redo, fresh, lost>>
 Dur == <<store, adone, idx>>
@@ -107,42 +109,47 @@ Begin(c, op, p) ==
   /\ Set(c, [op |-> op, p |-> p, pc |-> FirstPc(op), seen |-> "-", res |-> "-", g |-> 0, ws |-> okstart[p], wo |-> old[p]])
   /\ ncalls' = ncalls + 1
   /\ ev' = [ev |-> "XCall", c |-> c, op |-> op, p |-> p]
-  /\ UNCHANGED <<Dur, old, Proc, mu, waiter, gen, closed, runners, crashes, okstart, Hist, panicked>>
+  /\ UNCHANGED <<Dur, old, Proc, mu, waiter, gen, closed, runners, crashes, okstart, Hist, panicked, faults>>
 
 Return(c) ==
   /\ alive /\ call[c].pc = "ret"
   /\ ev' = [ev |-> "XRet", c |-> c, op |-> call[c].op, p |-> call[c].p, res |-> call[c].res]
   /\ Set(c, Idle)
-  /\ UNCHANGED <<Dur, old, Proc, mu, waiter, gen, closed, runners, ncalls, crashes, okstart, Hist, panicked>>
+  /\ UNCHANGED <<Dur, old, Proc, mu, waiter, gen, closed, runners, ncalls, crashes, okstart, Hist, panicked, faults>>
 
 (********************************* Submit *********************************)
 SubCreate(c) ==
   /\ alive /\ call[c].pc = "create"
   /\ store' = [store EXCEPT ![call[c].p] = "NS"] /\ idx' = [idx EXCEPT ![call[c].p] = "NS"]   \* Create is all-or-nothing (C14)
   /\ Res(c, "ok", "ret") /\ ev' = NoEv
-  /\ UNCHANGED <<adone, old, Proc, mu, waiter, gen, closed, runners, ncalls, crashes, okstart, Hist, panicked>>
+  /\ UNCHANGED <<adone, old, Proc, mu, waiter, gen, closed, runners, ncalls, crashes, okstart, Hist, panicked, faults>>
 
 (********************************** Start *********************************)
 SLock(c) ==
   /\ alive /\ call[c].pc = "lock" /\ mu = 0
   /\ mu' = c /\ Upd(c, "chk") /\ ev' = NoEv
-  /\ UNCHANGED <<Dur, old, Proc, waiter, gen, closed, runners, ncalls, crashes, okstart, Hist, panicked>>
+  /\ UNCHANGED <<Dur, old, Proc, waiter, gen, closed, runners, ncalls, crashes, okstart, Hist, panicked, faults>>
 SChk(c) ==
   /\ alive /\ call[c].pc = "chk"
   /\ IF waiter[call[c].p] # 0 THEN Res(c, "rej", "unlock") ELSE Upd(c, "read")
   /\ ev' = NoEv
-  /\ UNCHANGED <<Dur, old, Proc, mu, waiter, gen, closed, runners, ncalls, crashes, okstart, Hist, panicked>>
+  /\ UNCHANGED <<Dur, old, Proc, mu, waiter, gen, closed, runners, ncalls, crashes, okstart, Hist, panicked, faults>>
 SRead(c) ==
   /\ alive /\ call[c].pc = "read" /\ call[c].op = "start"
-  /\ LET v == store[call[c].p] IN
-       IF v = "none" THEN Res(c, "rej", "unlock") ELSE Set(c, [call[c] EXCEPT !.seen = v, !.pc = "val"])
+  /\ LET p == call[c].p
+         v == store[p] IN
+       \/ /\ faults[p] = 0 \/ v = "none"
+          /\ IF v = "none" THEN Res(c, "rej", "unlock") ELSE Set(c, [call[c] EXCEPT !.seen = v, !.pc = "val"])
+          /\ UNCHANGED faults
+       \/ /\ faults[p] > 0 /\ v # "none"          \* the read fails: Start returns the error, nothing is started
+          /\ faults' = [faults EXCEPT ![p] = @ - 1] /\ Res(c, "rej", "unlock")
   /\ ev' = NoEv
   /\ UNCHANGED <<Dur, old, Proc, mu, waiter, gen, closed, runners, ncalls, crashes, okstart, Hist, panicked>>
 SVal(c) ==
   /\ alive /\ call[c].pc = "val"
   /\ IF call[c].seen = "NS" /\ ~old[call[c].p] THEN Upd(c, "run") ELSE Res(c, "rej", "unlock")
   /\ ev' = NoEv
-  /\ UNCHANGED <<Dur, old, Proc, mu, waiter, gen, closed, runners, ncalls, crashes, okstart, Hist, panicked>>
+  /\ UNCHANGED <<Dur, old, Proc, mu, waiter, gen, closed, runners, ncalls, crashes, okstart, Hist, panicked, faults>>
 SRun(c) ==
   /\ alive /\ call[c].pc = "run"
   /\ LET p == call[c].p IN
@@ -152,11 +159,11 @@ SRun(c) ==
        /\ okstart' = [okstart EXCEPT ![p] = TRUE]
        /\ fresh' = [fresh EXCEPT ![p] = @ + 1]
   /\ Res(c, "ok", "unlock") /\ ev' = NoEv
-  /\ UNCHANGED <<Dur, old, Proc, mu, closed, ncalls, crashes, inv, redo, lost, panicked>>
+  /\ UNCHANGED <<Dur, old, Proc, mu, closed, ncalls, crashes, inv, redo, lost, panicked, faults>>
 SUnlock(c) ==
   /\ alive /\ call[c].pc = "unlock"
   /\ mu' = 0 /\ Upd(c, "ret") /\ ev' = NoEv
-  /\ UNCHANGED <<Dur, old, Proc, waiter, gen, closed, runners, ncalls, crashes, okstart, Hist, panicked>>
+  /\ UNCHANGED <<Dur, old, Proc, waiter, gen, closed, runners, ncalls, crashes, okstart, Hist, panicked, faults>>
 
 (***************************** Wait, Plan, Status **************************)
 WGet(c) ==
@@ -164,19 +171,22 @@ WGet(c) ==
   /\ LET g == waiter[call[c].p] IN
        IF g = 0 THEN Upd(c, "read") ELSE Set(c, [call[c] EXCEPT !.g = g, !.pc = "block"])
   /\ ev' = NoEv
-  /\ UNCHANGED <<Dur, old, Proc, mu, waiter, gen, closed, runners, ncalls, crashes, okstart, Hist, panicked>>
+  /\ UNCHANGED <<Dur, old, Proc, mu, waiter, gen, closed, runners, ncalls, crashes, okstart, Hist, panicked, faults>>
 WBlock(c) ==
   /\ alive /\ call[c].pc = "block" /\ call[c].g \in closed
   /\ Upd(c, "read") /\ ev' = NoEv
-  /\ UNCHANGED <<Dur, old, Proc, mu, waiter, gen, closed, runners, ncalls, crashes, okstart, Hist, panicked>>
+  /\ UNCHANGED <<Dur, old, Proc, mu, waiter, gen, closed, runners, ncalls, crashes, okstart, Hist, panicked, faults>>
 \* a Wait whose context expires first
 WGiveUp(c) ==
   /\ alive /\ call[c].pc = "block" /\ call[c].op = "waitto"
   /\ Res(c, "cancel", "ret") /\ ev' = NoEv
-  /\ UNCHANGED <<Dur, old, Proc, mu, waiter, gen, closed, runners, ncalls, crashes, okstart, Hist, panicked>>
+  /\ UNCHANGED <<Dur, old, Proc, mu, waiter, gen, closed, runners, ncalls, crashes, okstart, Hist, panicked, faults>>
 RRead(c) ==
   /\ alive /\ call[c].pc = "read" /\ call[c].op # "start"
-  /\ LET v == store[call[c].p] IN Res(c, IF v = "none" THEN "err" ELSE v, "ret")
+  /\ LET p == call[c].p
+         v == store[p] IN
+       \/ Res(c, IF v = "none" THEN "err" ELSE v, "ret") /\ (faults[p] = 0 \/ v = "none") /\ UNCHANGED faults
+       \/ faults[p] > 0 /\ v # "none" /\ faults' = [faults EXCEPT ![p] = @ - 1] /\ Res(c, "err", "ret")
   /\ ev' = NoEv
   /\ UNCHANGED <<Dur, old, Proc, mu, waiter, gen, closed, runners, ncalls, crashes, okstart, Hist, panicked>>
 \* Status: reads until the plan is not Running (a Running plan that nobody runs: the consumer gives up)
@@ -186,7 +196,7 @@ SRd(c) ==
        \/ v # "RU" /\ Res(c, IF v = "none" THEN "err" ELSE v, "ret")
        \/ v = "RU" /\ (~\E r \in runners : r.p = call[c].p) /\ Res(c, "RU", "ret")
   /\ ev' = NoEv
-  /\ UNCHANGED <<Dur, old, Proc, mu, waiter, gen, closed, runners, ncalls, crashes, okstart, Hist, panicked>>
+  /\ UNCHANGED <<Dur, old, Proc, mu, waiter, gen, closed, runners, ncalls, crashes, okstart, Hist, panicked, faults>>
 
 (***************************** the plan goroutine **************************)
 Move(r, pc2) == runners' = (runners \ {r}) \cup {[r EXCEPT !.pc = pc2]}
@@ -194,37 +204,37 @@ RBegin(r) ==
   /\ alive /\ r.pc = "begin"
   /\ store' = [store EXCEPT ![r.p] = "RU"] /\ ev' = NoEv
   /\ IF TwoStep THEN Move(r, "ibegin") /\ UNCHANGED idx ELSE Move(r, "invoke") /\ idx' = [idx EXCEPT ![r.p] = "RU"]
-  /\ UNCHANGED <<adone, old, Proc, mu, waiter, gen, closed, call, ncalls, crashes, okstart, Hist, panicked>>
+  /\ UNCHANGED <<adone, old, Proc, mu, waiter, gen, closed, call, ncalls, crashes, okstart, Hist, panicked, faults>>
 RResume(r) ==
   /\ alive /\ r.pc = "resume"
   /\ Move(r, IF adone[r.p] = "no" THEN "invoke" ELSE "finish") /\ ev' = NoEv
-  /\ UNCHANGED <<Dur, old, Proc, mu, waiter, gen, closed, call, ncalls, crashes, okstart, Hist, panicked>>
+  /\ UNCHANGED <<Dur, old, Proc, mu, waiter, gen, closed, call, ncalls, crashes, okstart, Hist, panicked, faults>>
 RInvoke(r) ==
   /\ alive /\ r.pc = "invoke"
   /\ Move(r, "incall") /\ inv' = [inv EXCEPT ![r.p] = @ + 1]
   /\ ev' = [ev |-> "PStart", p |-> r.p]
-  /\ UNCHANGED <<Dur, old, Proc, mu, waiter, gen, closed, call, ncalls, crashes, okstart, redo, fresh, lost, panicked>>
+  /\ UNCHANGED <<Dur, old, Proc, mu, waiter, gen, closed, call, ncalls, crashes, okstart, redo, fresh, lost, panicked, faults>>
 RPlugin(r, o) ==
   /\ alive /\ r.pc = "incall"
   /\ runners' = (runners \ {r}) \cup {[r EXCEPT !.pc = "record", !.out = o]}
   /\ ev' = [ev |-> "PEnd", p |-> r.p, out |-> o]
-  /\ UNCHANGED <<Dur, old, Proc, mu, waiter, gen, closed, call, ncalls, crashes, okstart, Hist, panicked>>
+  /\ UNCHANGED <<Dur, old, Proc, mu, waiter, gen, closed, call, ncalls, crashes, okstart, Hist, panicked, faults>>
 RRecord(r) ==
   /\ alive /\ r.pc = "record"
   /\ adone' = [adone EXCEPT ![r.p] = r.out] /\ Move(r, "finish") /\ ev' = NoEv
-  /\ UNCHANGED <<store, idx, old, Proc, mu, waiter, gen, closed, call, ncalls, crashes, okstart, Hist, panicked>>
+  /\ UNCHANGED <<store, idx, old, Proc, mu, waiter, gen, closed, call, ncalls, crashes, okstart, Hist, panicked, faults>>
 RFinish(r) ==
   /\ alive /\ r.pc = "finish"
   /\ LET t == IF adone[r.p] = "ok" THEN "CO" ELSE "FA" IN
        /\ store' = [store EXCEPT ![r.p] = t]
        /\ IF TwoStep THEN Move(r, "ifinish") /\ UNCHANGED idx ELSE Move(r, "close") /\ idx' = [idx EXCEPT ![r.p] = t]
   /\ ev' = NoEv
-  /\ UNCHANGED <<adone, old, Proc, mu, waiter, gen, closed, call, ncalls, crashes, okstart, Hist, panicked>>
+  /\ UNCHANGED <<adone, old, Proc, mu, waiter, gen, closed, call, ncalls, crashes, okstart, Hist, panicked, faults>>
 \* the second step of a plan write in a two-container vault: the search record follows the plan item
 RIndex(r) ==
   /\ alive /\ r.pc \in {"ibegin", "ifinish"}
   /\ idx' = [idx EXCEPT ![r.p] = store[r.p]] /\ Move(r, IF r.pc = "ibegin" THEN "invoke" ELSE "close") /\ ev' = NoEv
-  /\ UNCHANGED <<store, adone, old, Proc, mu, waiter, gen, closed, call, ncalls, crashes, okstart, Hist, panicked>>
+  /\ UNCHANGED <<store, adone, old, Proc, mu, waiter, gen, closed, call, ncalls, crashes, okstart, Hist, panicked, faults>>
 \* waiter, _ := e.waiters.Get(plan.ID); close(waiter)   - by key: whatever is registered under the id
 RClose(r) ==
   /\ alive /\ r.pc = "close"
@@ -232,17 +242,28 @@ RClose(r) ==
        IF g = 0 \/ g \in closed THEN panicked' = TRUE /\ UNCHANGED closed
        ELSE closed' = closed \cup {g} /\ UNCHANGED panicked
   /\ Move(r, "del") /\ ev' = NoEv
-  /\ UNCHANGED <<Dur, old, Proc, mu, waiter, gen, call, ncalls, crashes, okstart, Hist>>
+  /\ UNCHANGED <<Dur, old, Proc, mu, waiter, gen, call, ncalls, crashes, okstart, Hist, faults>>
 RDel(r) ==
   /\ alive /\ r.pc = "del"
   /\ waiter' = [waiter EXCEPT ![r.p] = 0] /\ runners' = runners \ {r} /\ ev' = NoEv
-  /\ UNCHANGED <<Dur, old, Proc, mu, gen, closed, call, ncalls, crashes, okstart, Hist, panicked>>
+  /\ UNCHANGED <<Dur, old, Proc, mu, gen, closed, call, ncalls, crashes, okstart, Hist, panicked, faults>>
 
 (******************************* time, crash *******************************)
 Age(p) ==
   /\ Aging /\ store[p] # "none" /\ ~old[p]
   /\ old' = [old EXCEPT ![p] = TRUE] /\ ev' = NoEv
-  /\ UNCHANGED <<Dur, Proc, mu, waiter, gen, closed, runners, call, ncalls, crashes, okstart, Hist, panicked>>
+  /\ UNCHANGED <<Dur, Proc, mu, waiter, gen, closed, runners, call, ncalls, crashes, okstart, Hist, panicked, faults>>
+
+\* the storage is about to fail the next read of plan p (a transient fault)
+Arm(p) ==
+  /\ alive /\ faults[p] = 0 /\ MaxFaults > 0 /\ ncalls < MaxCalls
+  /\ faults' = [faults EXCEPT ![p] = 1] /\ ev' = [ev |-> "XFault", p |-> p]
+  /\ UNCHANGED <<Dur, old, Proc, mu, waiter, gen, closed, runners, call, ncalls, crashes, okstart, Hist, panicked>>
+
+Disarm(p) ==
+  /\ alive /\ faults[p] > 0
+  /\ faults' = [faults EXCEPT ![p] = 0] /\ ev' = [ev |-> "XFaultClear", p |-> p]
+  /\ UNCHANGED <<Dur, old, Proc, mu, waiter, gen, closed, runners, call, ncalls, crashes, okstart, Hist, panicked>>
 
 Crash ==
   /\ alive /\ crashes < MaxCrashes
@@ -254,7 +275,7 @@ Crash ==
   \* a Start that returned nil whose "Running" never became durable is lost with the process: the plan is NotStarted again
   /\ lost' = [p \in Plans |-> lost[p] + Cardinality({r \in runners : r.p = p /\ r.pc = "begin"})]
   /\ ev' = NoEv
-  /\ UNCHANGED <<Dur, old, recovery, gen, closed, ncalls, inv, fresh, panicked>>
+  /\ UNCHANGED <<Dur, old, recovery, gen, closed, ncalls, inv, fresh, panicked, faults>>
 
 NewProcess ==
   /\ ~alive
@@ -264,7 +285,7 @@ NewProcess ==
           /\ idx' = [p \in Plans |-> IF p \in ag THEN "FA" ELSE IndexRepaired(store, idx)[p]]
           /\ Boot(store, IndexRepaired(store, idx), rec, ag, gen)
   /\ ev' = [ev |-> "XRestart"]
-  /\ UNCHANGED <<adone, old, closed, ncalls, crashes, Hist, panicked>>
+  /\ UNCHANGED <<adone, old, closed, ncalls, crashes, Hist, panicked, faults>>
 
 Internal ==
   \/ \E c \in Callers : SubCreate(c) \/ SLock(c) \/ SChk(c) \/ SRead(c) \/ SVal(c) \/ SRun(c) \/ SUnlock(c)
@@ -276,7 +297,7 @@ Visible ==
 Env ==
   \/ \E c \in Callers, op \in Ops, p \in Plans : Begin(c, op, p)
   \/ \E c \in Callers : WGiveUp(c)
-  \/ \E p \in Plans : Age(p)
+  \/ \E p \in Plans : Age(p) \/ Arm(p) \/ Disarm(p)
   \/ Crash \/ NewProcess
 
 Next == Internal \/ Visible \/ Env
@@ -299,7 +320,7 @@ StartOnce == \A p \in Plans : fresh[p] <= 1 + lost[p]
 \* the mutex is held exactly inside Start's critical section
 MutexInv == \A c \in Callers : (mu = c) <=> (call[c].pc \in {"chk", "read", "val", "run", "unlock"} /\ call[c].op = "start")
 \* C04/C12: a Wait that began after the plan was started (or resumed) in this process returns a terminal plan
-WaitTruth == \A c \in Callers : (call[c].op = "wait" /\ call[c].pc = "ret" /\ call[c].ws) => call[c].res \in Terminal
+WaitTruth == \A c \in Callers : (call[c].op = "wait" /\ call[c].pc = "ret" /\ call[c].ws) => call[c].res \in Terminal \cup {"err"}     \* "err": only when the storage read itself failed (faults)
 \* nothing but a NotStarted, unregistered plan is ever started
 StartedFromNS == [][\A c \in Callers : (call[c].pc = "run" /\ call'[c].pc = "unlock") => store[call[c].p] = "NS"]_vars
 \* C12: a plan whose submission was already too old when Start was called is not started
